@@ -425,16 +425,10 @@ def _group(view, a, ordered):
             x, y = view.end[p], view.start[q]
             return x <= y if k == "lax" else x < y if k == "strict" else x == y
 
+        # the order binds the scheduled members, in list order (unscheduled members are skipped)
         order = True
-        for i in range(len(ids) - 1):
-            p, q = ids[i], ids[i + 1]
-            if view.sched[p] and view.sched[q]:
-                order = k_and([order, rel(p, q)])
-        if len(ts) != len(ids) and order is True:
-            # members skipped: the relation between non-adjacent members is not documented
-            for p, q in zip(ts, ts[1:]):
-                if ids.index(q) - ids.index(p) > 1 and not rel(p, q):
-                    order = None
+        for p, q in zip(ts, ts[1:]):
+            order = k_and([order, rel(p, q)])
         res = k_and([res, order])
     return res
 
